@@ -1,11 +1,951 @@
-//! C31 (not built yet)
-use crate::report::{Disagreement, Run};
-use serde_json::Value;
+//! C31 Dynamic-array spills are exact and never stale.
+//!
+//! Scenarios: an anchor B5 holding one of `=SEQUENCE(A1,B1)`, `=D1:E2`, `={1,2;3,4}`, `=TRANSPOSE(D1:E2)`, `=F1#*2`
+//! (F1 = `=SEQUENCE(A1,B1)`), size cells A1,B1 in {0,1,2,3,"x"}, a blocker in {none, value, formula, another spill,
+//! CSE array} at cells of the potential block B5:D7; the same SEQUENCE anchor against the last rows / columns.
+//! (1) every scenario of the product sizes x blocker x anchor is built and judged; (2) from the base scenarios every
+//! word of length <= 2 (thorough 3) over {change a size cell, put / remove a blocker, clear, insert / delete / move a
+//! row or column through the block, cut / copy-paste over it, undo, redo} is run on the real UserModel and its final
+//! state judged.
+//! Oracle = the spill model, as a state invariant over the whole sheet: for every dynamic-array anchor the m x n
+//! result is computed by a 60-line reference evaluator of these five formula shapes from the current cell values; then
+//! either the block holds exactly the corresponding elements as spill cells of this anchor, or (a foreign non-empty
+//! cell in the block, or the block leaves the grid) the anchor shows #SPILL! and no cell is a spill of it; every spill
+//! cell is covered by its anchor's current block; changing a size cell / placing a blocker changes no other
+//! user-entered content.
 
-pub fn run(run: &mut Run) {
-    run.machinery_errors.push("C31: check not built yet".into());
+use crate::ops::Op;
+use crate::report::{Disagreement, Run};
+use crate::structural::{LAST_COL, LAST_ROW};
+use ironcalc_base::cell::CellValue;
+use ironcalc_base::expressions::parser::{ArrayNode, Node, Parser};
+use ironcalc_base::expressions::token::OpProduct;
+use ironcalc_base::expressions::types::{Area, CellReferenceRC};
+use ironcalc_base::language::get_language;
+use ironcalc_base::locale::get_locale;
+use ironcalc_base::types::{ArrayKind, Cell};
+use ironcalc_base::{Function, Model, UserModel};
+use serde::{Deserialize, Serialize};
+use serde_json::{json, Value};
+use std::collections::{BTreeMap, BTreeSet, HashMap};
+
+pub const ANCHORS: [&str; 6] = [
+    "=SEQUENCE(A1,B1)",
+    "=D1:E2",
+    "={1,2;3,4}",
+    "=TRANSPOSE(D1:E2)",
+    "=F1#*2",
+    // the same with the source spill placed after the reader (F9 = SEQUENCE(A1,B1))
+    "=F9#*2",
+];
+pub const SIZES: [&str; 5] = ["0", "1", "2", "3", "x"];
+const AR: i32 = 5;
+const AC: i32 = 2;
+
+#[derive(Clone, Debug, Serialize, Deserialize, PartialEq)]
+pub struct Base {
+    /// index into ANCHORS
+    pub anchor: usize,
+    pub a: String,
+    pub b: String,
+    /// anchor position
+    pub row: i32,
+    pub col: i32,
 }
 
-pub fn replay(_case: &Value) -> Vec<Disagreement> {
-    vec![]
+#[derive(Clone, Debug, Serialize, Deserialize, PartialEq)]
+pub enum SOp {
+    /// size cell (1 = A1, 2 = B1), text
+    Size(i32, String),
+    /// blocker kind ("value","formula","spill","cse","spill-from-above"), offset (dr, dc) from the anchor
+    Block(String, i32, i32),
+    /// clear contents at offset (dr,dc), height, width
+    Clear(i32, i32, i32, i32),
+    InsRow(i32),
+    DelRow(i32),
+    InsCol(i32),
+    DelCol(i32),
+    /// row offset, delta
+    MoveRow(i32, i32),
+    MoveCol(i32, i32),
+    /// (source r1,c1,r2,c2 absolute) -> target offset from the anchor, cut?
+    Paste(i32, i32, i32, i32, i32, i32, bool),
+    Undo,
+    Redo,
+}
+
+impl SOp {
+    pub fn kind(&self) -> String {
+        match self {
+            SOp::Size(..) => "size".into(),
+            SOp::Block(k, ..) => format!("block-{}", k),
+            SOp::Clear(..) => "clear".into(),
+            SOp::InsRow(_) => "insert-row".into(),
+            SOp::DelRow(_) => "delete-row".into(),
+            SOp::InsCol(_) => "insert-col".into(),
+            SOp::DelCol(_) => "delete-col".into(),
+            SOp::MoveRow(..) => "move-row".into(),
+            SOp::MoveCol(..) => "move-col".into(),
+            SOp::Paste(.., false) => "copy-paste".into(),
+            SOp::Paste(.., true) => "cut-paste".into(),
+            SOp::Undo => "undo".into(),
+            SOp::Redo => "redo".into(),
+        }
+    }
+    pub fn apply(&self, um: &mut UserModel, base: &Base) -> Result<(), String> {
+        let (r0, c0) = (base.row, base.col);
+        match self {
+            SOp::Size(i, t) => um.set_user_input(0, 1, *i, t),
+            SOp::Block(kind, dr, dc) => {
+                let (r, c) = (r0 + dr, c0 + dc);
+                match kind.as_str() {
+                    "value" => um.set_user_input(0, r, c, "blk"),
+                    "formula" => um.set_user_input(0, r, c, "=1+1"),
+                    "spill" => um.set_user_input(0, r, c, "=SEQUENCE(2,2)"),
+                    "spill-from-above" => um.set_user_input(0, r, c, "=SEQUENCE(3)"),
+                    "cse" => um.set_user_array_formula(0, r, c, 2, 1, "={7,8}"),
+                    _ => Err("harness: unknown blocker".into()),
+                }
+            }
+            SOp::Clear(dr, dc, h, w) => um.range_clear_contents(&Area {
+                sheet: 0,
+                row: r0 + dr,
+                column: c0 + dc,
+                height: *h,
+                width: *w,
+            }),
+            SOp::InsRow(dr) => um.insert_rows(0, r0 + dr, 1),
+            SOp::DelRow(dr) => um.delete_rows(0, r0 + dr, 1),
+            SOp::InsCol(dc) => um.insert_columns(0, c0 + dc, 1),
+            SOp::DelCol(dc) => um.delete_columns(0, c0 + dc, 1),
+            SOp::MoveRow(dr, d) => um.move_rows_action(0, r0 + dr, 1, *d),
+            SOp::MoveCol(dc, d) => um.move_columns_action(0, c0 + dc, 1, *d),
+            SOp::Paste(r1, c1, r2, c2, dr, dc, cut) => {
+                // sources given as offsets from the anchor when negative numbers are not needed: absolute if r1 < 100
+                Op::Paste(0, *r1, *c1, *r2, *c2, 0, r0 + dr, c0 + dc, *cut).apply(um)
+            }
+            SOp::Undo => um.undo(),
+            SOp::Redo => um.redo(),
+        }
+    }
+}
+
+pub fn alphabet(base: &Base, full: bool) -> Vec<SOp> {
+    let mut v = vec![];
+    for i in 1..=2 {
+        for s in SIZES {
+            if full || s != "0" {
+                v.push(SOp::Size(i, s.to_string()));
+            }
+        }
+    }
+    for kind in ["value", "formula", "spill", "cse"] {
+        for (dr, dc) in [(0, 1), (1, 0), (1, 1)] {
+            if full || (dr, dc) != (1, 0) {
+                v.push(SOp::Block(kind.to_string(), dr, dc));
+            }
+        }
+    }
+    v.push(SOp::Block("spill-from-above".into(), -1, 1));
+    v.push(SOp::Block("value".into(), 2, 2));
+    // remove blockers / clear
+    v.push(SOp::Clear(0, 1, 1, 1));
+    v.push(SOp::Clear(1, 0, 1, 1));
+    v.push(SOp::Clear(1, 1, 1, 1));
+    v.push(SOp::Clear(-1, 1, 1, 1));
+    v.push(SOp::Clear(0, 0, 1, 1));
+    v.push(SOp::Clear(0, 0, 3, 3));
+    // structure through the block
+    v.push(SOp::InsRow(1));
+    v.push(SOp::DelRow(1));
+    v.push(SOp::InsCol(1));
+    v.push(SOp::DelCol(1));
+    v.push(SOp::MoveRow(1, 1));
+    v.push(SOp::MoveRow(0, -1));
+    v.push(SOp::MoveCol(1, 1));
+    v.push(SOp::MoveCol(0, -1));
+    if full {
+        v.push(SOp::InsRow(0));
+        v.push(SOp::DelRow(0));
+        v.push(SOp::InsCol(0));
+        v.push(SOp::DelCol(0));
+        v.push(SOp::DelRow(-4)); // the row of the size cells (and of D1:E2, F1)
+    }
+    // paste over the block / move the anchor (sources: D1 value, D1:D2 values, the anchor itself)
+    let (r0, c0) = (base.row, base.col);
+    v.push(SOp::Paste(1, 4, 1, 4, 1, 1, false));
+    v.push(SOp::Paste(1, 4, 2, 4, 0, 1, false));
+    v.push(SOp::Paste(r0, c0, r0, c0, 0, 4, true));
+    v.push(SOp::Paste(r0, c0, r0, c0, 1, 1, false));
+    if full {
+        v.push(SOp::Paste(1, 4, 1, 4, 0, 1, true));
+        v.push(SOp::Paste(r0, c0, r0 + 1, c0 + 1, 0, 4, false));
+    }
+    v.push(SOp::Undo);
+    v.push(SOp::Redo);
+    v
+}
+
+pub fn build(base: &Base) -> UserModel<'static> {
+    let mut um = UserModel::new_empty("c31", "en", "UTC", "en").expect("new_empty");
+    um.pause_evaluation();
+    um.set_user_input(0, 1, 1, &base.a).expect("input");
+    um.set_user_input(0, 1, 2, &base.b).expect("input");
+    for (r, c, v) in [(1, 4, "1"), (1, 5, "2"), (2, 4, "3"), (2, 5, "4")] {
+        um.set_user_input(0, r, c, v).expect("input");
+    }
+    if ANCHORS[base.anchor].contains("F1#") {
+        um.set_user_input(0, 1, 6, "=SEQUENCE(A1,B1)").expect("input");
+    }
+    if ANCHORS[base.anchor].contains("F9#") {
+        um.set_user_input(0, 9, 6, "=SEQUENCE(A1,B1)").expect("input");
+    }
+    um.set_user_input(0, base.row, base.col, ANCHORS[base.anchor]).expect("anchor");
+    um.resume_evaluation();
+    um.evaluate();
+    um
+}
+
+// ---------------------------------------------------------------------------------------------------------------
+// reference evaluator of the five shapes
+// ---------------------------------------------------------------------------------------------------------------
+
+#[derive(Clone, PartialEq, Debug)]
+pub enum Elem {
+    Num(f64),
+    Text(String),
+    Bool(bool),
+    /// a blank source cell: shown as 0 or empty (not compared)
+    Any,
+}
+
+#[derive(Clone, PartialEq, Debug)]
+pub enum Expected {
+    /// rows of elements
+    Array(Vec<Vec<Elem>>),
+    /// the formula yields a single error (which one is not stated)
+    SomeError,
+    /// shape not known to the reference: only structural rules are applied
+    Unknown,
+}
+
+fn value_elem(v: &CellValue) -> Elem {
+    match v {
+        CellValue::None => Elem::Any,
+        CellValue::Number(n) => Elem::Num(*n),
+        CellValue::String(s) => Elem::Text(s.clone()),
+        CellValue::Boolean(b) => Elem::Bool(*b),
+    }
+}
+
+fn is_error_text(s: &str) -> bool {
+    s.starts_with('#')
+}
+
+fn abs_ref(node: &Node, ctx: (i32, i32)) -> Option<(i32, i32)> {
+    if let Node::ReferenceKind {
+        sheet_index: 0,
+        absolute_row,
+        absolute_column,
+        row,
+        column,
+        ..
+    } = node
+    {
+        let r = if *absolute_row { *row } else { *row + ctx.0 };
+        let c = if *absolute_column { *column } else { *column + ctx.1 };
+        if (1..=LAST_ROW).contains(&r) && (1..=LAST_COL).contains(&c) {
+            return Some((r, c));
+        }
+    }
+    None
+}
+
+fn abs_range(node: &Node, ctx: (i32, i32)) -> Option<(i32, i32, i32, i32)> {
+    if let Node::RangeKind {
+        sheet_index: 0,
+        absolute_row1,
+        absolute_column1,
+        row1,
+        column1,
+        absolute_row2,
+        absolute_column2,
+        row2,
+        column2,
+        ..
+    } = node
+    {
+        let r1 = if *absolute_row1 { *row1 } else { *row1 + ctx.0 };
+        let c1 = if *absolute_column1 { *column1 } else { *column1 + ctx.1 };
+        let r2 = if *absolute_row2 { *row2 } else { *row2 + ctx.0 };
+        let c2 = if *absolute_column2 { *column2 } else { *column2 + ctx.1 };
+        if r1 >= 1 && c1 >= 1 && r2 <= LAST_ROW && c2 <= LAST_COL && r1 <= r2 && c1 <= c2 && (r2 - r1) < 50 && (c2 - c1) < 50 {
+            return Some((r1, c1, r2, c2));
+        }
+    }
+    None
+}
+
+fn read_block(model: &Model, r1: i32, c1: i32, r2: i32, c2: i32) -> Expected {
+    let mut rows = vec![];
+    for r in r1..=r2 {
+        let mut row = vec![];
+        for c in c1..=c2 {
+            match model.get_cell_value_by_index(0, r, c) {
+                Ok(CellValue::String(s)) if is_error_text(&s) => return Expected::Unknown, // element errors: not modelled
+                Ok(v) => row.push(value_elem(&v)),
+                Err(_) => return Expected::Unknown,
+            }
+        }
+        rows.push(row);
+    }
+    Expected::Array(rows)
+}
+
+/// size argument of SEQUENCE read from a cell: Ok(n >= 1), Err(true) = certainly an error, Err(false) = unknown
+fn size_of(model: &Model, pos: (i32, i32)) -> Result<i32, bool> {
+    match model.get_cell_value_by_index(0, pos.0, pos.1) {
+        Ok(CellValue::Number(n)) if n.fract() == 0.0 && (1.0..=1000.0).contains(&n) => Ok(n as i32),
+        Ok(CellValue::Number(n)) if n == 0.0 => Err(true),
+        Ok(CellValue::None) => Err(true),
+        Ok(CellValue::String(s)) if !s.is_empty() && s.parse::<f64>().is_err() => Err(true),
+        _ => Err(false),
+    }
+}
+
+pub fn reference(model: &Model, node: &Node, ctx: (i32, i32)) -> Expected {
+    match node {
+        Node::FunctionKind { kind, args } if *kind == Function::Sequence && args.len() == 2 => {
+            let (Some(pa), Some(pb)) = (abs_ref(&args[0], ctx), abs_ref(&args[1], ctx)) else {
+                return Expected::Unknown;
+            };
+            match (size_of(model, pa), size_of(model, pb)) {
+                (Ok(a), Ok(b)) => Expected::Array(
+                    (0..a)
+                        .map(|i| (0..b).map(|j| Elem::Num((i * b + j + 1) as f64)).collect())
+                        .collect(),
+                ),
+                (Err(true), Ok(_)) | (Ok(_), Err(true)) | (Err(true), Err(true)) => Expected::SomeError,
+                _ => Expected::Unknown,
+            }
+        }
+        Node::RangeKind { .. } => match abs_range(node, ctx) {
+            Some((r1, c1, r2, c2)) => read_block(model, r1, c1, r2, c2),
+            None => Expected::Unknown,
+        },
+        Node::FunctionKind { kind, args } if *kind == Function::Transpose && args.len() == 1 => {
+            match abs_range(&args[0], ctx).map(|(r1, c1, r2, c2)| read_block(model, r1, c1, r2, c2)) {
+                Some(Expected::Array(rows)) => {
+                    let (m, n) = (rows.len(), rows[0].len());
+                    Expected::Array((0..n).map(|j| (0..m).map(|i| rows[i][j].clone()).collect()).collect())
+                }
+                _ => Expected::Unknown,
+            }
+        }
+        Node::ArrayKind(rows) => {
+            let mut out = vec![];
+            for r in rows {
+                let mut row = vec![];
+                for e in r {
+                    row.push(match e {
+                        ArrayNode::Number(n) => Elem::Num(*n),
+                        ArrayNode::String(s) => Elem::Text(s.clone()),
+                        ArrayNode::Boolean(b) => Elem::Bool(*b),
+                        _ => return Expected::Unknown,
+                    });
+                }
+                out.push(row);
+            }
+            Expected::Array(out)
+        }
+        Node::OpProductKind {
+            kind: OpProduct::Times,
+            left,
+            right,
+        } => {
+            let (Node::SpillRangeOperator { child }, Node::NumberKind(k)) = (&**left, &**right) else {
+                return Expected::Unknown;
+            };
+            let Some((r, c)) = abs_ref(child, ctx) else {
+                return Expected::Unknown;
+            };
+            match model.workbook.worksheets[0].cell(r, c) {
+                Some(Cell::ArrayFormula {
+                    kind: ArrayKind::Dynamic,
+                    r: (w, h),
+                    ..
+                }) => {
+                    // the source anchor's own value decides: an error there is an error here
+                    match model.get_cell_value_by_index(0, r, c) {
+                        Ok(CellValue::String(s)) if is_error_text(&s) => Expected::SomeError,
+                        _ => match read_block(model, r, c, r + h - 1, c + w - 1) {
+                            Expected::Array(rows) => {
+                                let mut out = vec![];
+                                for row in rows {
+                                    let mut o = vec![];
+                                    for e in row {
+                                        match e {
+                                            Elem::Num(n) => o.push(Elem::Num(n * k)),
+                                            _ => return Expected::Unknown,
+                                        }
+                                    }
+                                    out.push(o);
+                                }
+                                Expected::Array(out)
+                            }
+                            _ => Expected::Unknown,
+                        },
+                    }
+                }
+                // not a dynamic array there: `#` of it is an error
+                Some(Cell::CellFormula { .. }) | Some(Cell::ArrayFormula { .. }) | Some(Cell::SpillCell { .. }) => Expected::Unknown,
+                _ => Expected::SomeError,
+            }
+        }
+        _ => Expected::Unknown,
+    }
+}
+
+// ---------------------------------------------------------------------------------------------------------------
+// the invariant
+// ---------------------------------------------------------------------------------------------------------------
+
+fn shape_name(node: &Node) -> &'static str {
+    match node {
+        Node::FunctionKind { kind, .. } if *kind == Function::Sequence => "SEQUENCE",
+        Node::FunctionKind { kind, .. } if *kind == Function::Transpose => "TRANSPOSE",
+        Node::RangeKind { .. } => "range",
+        Node::ArrayKind(_) => "array-literal",
+        Node::OpProductKind { .. } => "spill-ref*2",
+        _ => "other",
+    }
+}
+
+fn elem_matches(e: &Elem, v: &CellValue) -> bool {
+    match (e, v) {
+        (Elem::Any, _) => true,
+        (Elem::Num(a), CellValue::Number(b)) => a == b,
+        (Elem::Text(a), CellValue::String(b)) => a == b,
+        (Elem::Bool(a), CellValue::Boolean(b)) => a == b,
+        _ => false,
+    }
+}
+
+pub struct Check {
+    /// (violation class with the formula shape, detail)
+    pub bad: Vec<(String, String)>,
+    pub anchors: u64,
+    pub spilled: u64,
+    pub blocked: u64,
+    pub scalar: u64,
+    pub unknown: u64,
+}
+
+pub fn check_state(model: &Model) -> Check {
+    let mut ck = Check {
+        bad: vec![],
+        anchors: 0,
+        spilled: 0,
+        blocked: 0,
+        scalar: 0,
+        unknown: 0,
+    };
+    let ws = &model.workbook.worksheets[0];
+    let mut cells: BTreeMap<(i32, i32), &Cell> = BTreeMap::new();
+    for (r, rd) in &ws.sheet_data {
+        for (c, cell) in rd {
+            cells.insert((*r, *c), cell);
+        }
+    }
+    let non_empty = |cell: &Cell| !matches!(cell, Cell::EmptyCell { .. });
+    let names = model.workbook.get_worksheet_names();
+    let locale = get_locale("en").expect("locale");
+    let language = get_language("en").expect("language");
+    let mut parser = Parser::new(names.clone(), model.workbook.get_defined_names_with_scope(), HashMap::new(), locale, language);
+    // blocks claimed by array anchors: anchor -> (height, width)
+    let mut claims: BTreeMap<(i32, i32), (i32, i32)> = BTreeMap::new();
+    for (&(r, c), cell) in &cells {
+        match cell {
+            Cell::ArrayFormula {
+                kind: ArrayKind::Cse,
+                r: (w, h),
+                ..
+            } => {
+                claims.insert((r, c), (*h, *w));
+            }
+            Cell::ArrayFormula {
+                kind: ArrayKind::Dynamic,
+                r: (w, h),
+                ..
+            } => {
+                claims.insert((r, c), (*h, *w));
+                ck.anchors += 1;
+                let text = model.get_cell_formula(0, r, c).ok().flatten().unwrap_or_default();
+                let node = parser.parse(
+                    text.strip_prefix('=').unwrap_or(&text),
+                    &CellReferenceRC {
+                        sheet: names[0].clone(),
+                        row: r,
+                        column: c,
+                    },
+                );
+                let shape = shape_name(&node);
+                let val = model.get_cell_value_by_index(0, r, c).unwrap_or(CellValue::None);
+                let shows_spill = matches!(&val, CellValue::String(s) if s == "#SPILL!");
+                let own: Vec<(i32, i32)> = cells
+                    .iter()
+                    .filter(|(_, x)| matches!(x, Cell::SpillCell { a, .. } if *a == (r, c)))
+                    .map(|(p, _)| *p)
+                    .collect();
+                match reference(model, &node, (r, c)) {
+                    Expected::Unknown => {
+                        ck.unknown += 1;
+                    }
+                    Expected::SomeError => {
+                        ck.scalar += 1;
+                        let is_err = matches!(&val, CellValue::String(s) if is_error_text(s));
+                        if !is_err {
+                            ck.bad.push((
+                                format!("{} degenerate-size-not-an-error", shape),
+                                format!("`{}` at R{}C{} shows {:?}, expected an error", text, r, c, val),
+                            ));
+                        }
+                        if !own.is_empty() || (*w, *h) != (1, 1) {
+                            ck.bad.push((
+                                format!("{} error-result-keeps-spill-cells", shape),
+                                format!("`{}` at R{}C{} is an error but has size {:?} and spill cells {:?}", text, r, c, (w, h), own),
+                            ));
+                        }
+                    }
+                    Expected::Array(rows) => {
+                        let (m, n) = (rows.len() as i32, rows[0].len() as i32);
+                        let off_grid = r + m - 1 > LAST_ROW || c + n - 1 > LAST_COL;
+                        let mut foreign: Vec<(i32, i32)> = vec![];
+                        if !off_grid {
+                            for i in 0..m {
+                                for j in 0..n {
+                                    if (i, j) == (0, 0) {
+                                        continue;
+                                    }
+                                    if let Some(x) = cells.get(&(r + i, c + j)) {
+                                        let mine = matches!(x, Cell::SpillCell { a, .. } if *a == (r, c));
+                                        if !mine && non_empty(x) {
+                                            foreign.push((r + i, c + j));
+                                        }
+                                    }
+                                }
+                            }
+                        }
+                        if m == 1 && n == 1 {
+                            ck.scalar += 1;
+                            if !elem_matches(&rows[0][0], &val) || !own.is_empty() {
+                                ck.bad.push((
+                                    format!("{} one-cell-result-wrong", shape),
+                                    format!("`{}` at R{}C{} shows {:?} with spill cells {:?}, expected {:?}", text, r, c, val, own, rows[0][0]),
+                                ));
+                            }
+                        } else if shows_spill {
+                            ck.blocked += 1;
+                            if !off_grid && foreign.is_empty() {
+                                ck.bad.push((
+                                    format!("{} #SPILL!-although-block-is-free", shape),
+                                    format!("`{}` at R{}C{} shows #SPILL! but its {}x{} block holds no foreign content and lies on the grid", text, r, c, m, n),
+                                ));
+                            }
+                            if !own.is_empty() || (*w, *h) != (1, 1) {
+                                ck.bad.push((
+                                    format!("{} #SPILL!-but-spill-cells-remain", shape),
+                                    format!("`{}` at R{}C{} shows #SPILL! and still owns {:?} (size {:?})", text, r, c, own, (w, h)),
+                                ));
+                            }
+                        } else {
+                            ck.spilled += 1;
+                            if off_grid || !foreign.is_empty() {
+                                ck.bad.push((
+                                    format!("{} blocked-but-no-#SPILL!", shape),
+                                    format!(
+                                        "`{}` at R{}C{} shows {:?}; its {}x{} block {} (foreign cells {:?})",
+                                        text,
+                                        r,
+                                        c,
+                                        val,
+                                        m,
+                                        n,
+                                        if off_grid { "leaves the grid" } else { "is blocked" },
+                                        foreign
+                                    ),
+                                ));
+                                continue;
+                            }
+                            if (*w, *h) != (n, m) {
+                                ck.bad.push((
+                                    format!("{} wrong-block-size", shape),
+                                    format!("`{}` at R{}C{} has spill size {:?}, the result is {} rows x {} columns", text, r, c, (w, h), m, n),
+                                ));
+                            }
+                            let mut wrong = vec![];
+                            for i in 0..m {
+                                for j in 0..n {
+                                    let p = (r + i, c + j);
+                                    let v = model.get_cell_value_by_index(0, p.0, p.1).unwrap_or(CellValue::None);
+                                    let is_mine = (i, j) == (0, 0) || own.contains(&p);
+                                    if !is_mine || !elem_matches(&rows[i as usize][j as usize], &v) {
+                                        wrong.push((p, format!("{:?}", v), format!("{:?}", rows[i as usize][j as usize])));
+                                    }
+                                }
+                            }
+                            if !wrong.is_empty() {
+                                ck.bad.push((
+                                    format!("{} wrong-or-missing-elements", shape),
+                                    format!("`{}` at R{}C{}: (cell, shown, expected) {:?}", text, r, c, wrong),
+                                ));
+                            }
+                            let stale: Vec<_> = own.iter().filter(|p| p.0 < r || p.0 >= r + m || p.1 < c || p.1 >= c + n).collect();
+                            if !stale.is_empty() {
+                                ck.bad.push((
+                                    format!("{} stale-spill-cells-outside-block", shape),
+                                    format!("`{}` at R{}C{} ({}x{}) still owns {:?}", text, r, c, m, n, stale),
+                                ));
+                            }
+                        }
+                    }
+                }
+            }
+            _ => {}
+        }
+    }
+    // every spill cell is covered by the current block of its anchor
+    for (&(r, c), cell) in &cells {
+        if let Cell::SpillCell { a, .. } = cell {
+            let covered = match claims.get(a) {
+                Some((h, w)) => r >= a.0 && r < a.0 + h && c >= a.1 && c < a.1 + w && (r, c) != *a,
+                None => false,
+            };
+            if !covered {
+                ck.bad.push((
+                    "orphan-spill-cell".to_string(),
+                    format!(
+                        "R{}C{} is a spill cell of R{}C{}, which {}",
+                        r,
+                        c,
+                        a.0,
+                        a.1,
+                        if claims.contains_key(a) { "does not cover it" } else { "is not an array formula" }
+                    ),
+                ));
+            }
+        }
+    }
+    ck
+}
+
+/// user-entered contents: position -> content text, of every cell that is not a spill cell
+fn user_contents(um: &UserModel) -> BTreeMap<(i32, i32), String> {
+    let mut out = BTreeMap::new();
+    let ws = &um.get_model().workbook.worksheets[0];
+    for (r, rd) in &ws.sheet_data {
+        for (c, cell) in rd {
+            if matches!(cell, Cell::SpillCell { .. } | Cell::EmptyCell { .. }) {
+                continue;
+            }
+            out.insert((*r, *c), um.get_cell_content(0, *r, *c).unwrap_or_default());
+        }
+    }
+    out
+}
+
+pub struct WordOut {
+    pub ds: Vec<Disagreement>,
+    pub digest: u128,
+    pub counts: [u64; 5],
+}
+
+fn state_digest(um: &UserModel) -> u128 {
+    let m = um.get_model();
+    let ws = &m.workbook.worksheets[0];
+    let mut cells: Vec<(i32, i32)> = vec![];
+    for (r, rd) in &ws.sheet_data {
+        for c in rd.keys() {
+            cells.push((*r, *c));
+        }
+    }
+    cells.sort_unstable();
+    let mut s = String::new();
+    for (r, c) in cells {
+        s.push_str(&format!("{},{}={:?}|", r, c, m.get_cell_value_by_index(0, r, c)));
+    }
+    crate::env::digest(&s)
+}
+
+/// Runs the word from the base scenario; judges the final state (the prefix states must be clean).
+pub fn run_word(base: &Base, word: &[SOp]) -> Option<WordOut> {
+    let case = json!({"base": base, "word": word});
+    let mut um = build(base);
+    let n = word.len();
+    let mut last_kind = "initial".to_string();
+    let mut before: Option<BTreeMap<(i32, i32), String>> = None;
+    for (i, op) in word.iter().enumerate() {
+        if i + 1 == n {
+            before = Some(user_contents(&um));
+        }
+        let r = crate::env::guarded(|| op.apply(&mut um, base));
+        match r {
+            Err(p) => {
+                if i + 1 < n {
+                    return None;
+                }
+                return Some(WordOut {
+                    ds: vec![Disagreement {
+                        sig: format!("panic {} at={}", op.kind(), p.split(" @ ").last().unwrap_or("")),
+                        case,
+                        detail: p,
+                    }],
+                    digest: 0,
+                    counts: [0; 5],
+                });
+            }
+            Ok(Err(_)) => return None,
+            Ok(Ok(())) => {}
+        }
+        if i + 1 < n && !check_state(um.get_model()).bad.is_empty() {
+            return None; // reported by the shorter word
+        }
+        last_kind = op.kind();
+    }
+    let ck = check_state(um.get_model());
+    let digest = state_digest(&um);
+    let before_eval = user_contents(&um);
+    let mut ds: Vec<Disagreement> = vec![];
+    if !ck.bad.is_empty() {
+        // one defect class of its own: the evaluation pass did not reach a fixpoint, evaluating again repairs the spill
+        um.evaluate();
+        let again: BTreeSet<String> = check_state(um.get_model()).bad.into_iter().map(|b| b.0).collect();
+        for (cls, detail) in &ck.bad {
+            let sig = if again.contains(cls) {
+                format!("after={} {}", last_kind, cls)
+            } else {
+                format!("{} not-a-fixpoint(a second evaluate repairs it)", cls.split(' ').next().unwrap_or(""))
+            };
+            ds.push(Disagreement {
+                sig,
+                case: case.clone(),
+                detail: detail.clone(),
+            });
+        }
+    }
+    // spills never overwrite user content: an input into one cell changes no other user-entered content
+    if let (Some(before), Some(op)) = (before, word.last()) {
+        let target: Option<Vec<(i32, i32)>> = match op {
+            SOp::Size(i, _) => Some(vec![(1, *i)]),
+            SOp::Block(k, dr, dc) if k == "cse" => Some(vec![(base.row + dr, base.col + dc), (base.row + dr, base.col + dc + 1)]),
+            SOp::Block(_, dr, dc) => Some(vec![(base.row + dr, base.col + dc)]),
+            _ => None,
+        };
+        if let Some(t) = target {
+            let after = before_eval;
+            for (p, text) in &before {
+                if t.contains(p) {
+                    continue;
+                }
+                if after.get(p) != Some(text) {
+                    ds.push(Disagreement {
+                        sig: format!("after={} user-content-changed", last_kind),
+                        case: case.clone(),
+                        detail: format!("R{}C{} held `{}` and now holds {:?} after {:?}", p.0, p.1, text, after.get(p), op),
+                    });
+                }
+            }
+        }
+    }
+    Some(WordOut {
+        ds,
+        digest,
+        counts: [ck.anchors, ck.spilled, ck.blocked, ck.scalar, ck.unknown],
+    })
+}
+
+pub fn bases() -> Vec<Base> {
+    let mut v = vec![];
+    for anchor in 0..ANCHORS.len() {
+        for (a, b) in [("2", "2"), ("3", "1")] {
+            if anchor != 0 && anchor < 4 && a == "3" {
+                continue;
+            }
+            v.push(Base {
+                anchor,
+                a: a.into(),
+                b: b.into(),
+                row: AR,
+                col: AC,
+            });
+        }
+    }
+    // against the last rows / columns
+    v.push(Base {
+        anchor: 0,
+        a: "2".into(),
+        b: "2".into(),
+        row: LAST_ROW - 1,
+        col: 2,
+    });
+    v.push(Base {
+        anchor: 0,
+        a: "2".into(),
+        b: "2".into(),
+        row: 5,
+        col: LAST_COL - 1,
+    });
+    v
+}
+
+/// the product sizes x blocker x anchor (and the edge anchors), as words from a neutral base
+pub fn product() -> Vec<(Base, Vec<SOp>)> {
+    let mut v = vec![];
+    let mut blockers: Vec<Option<SOp>> = vec![None];
+    for kind in ["value", "formula", "spill", "cse"] {
+        for (dr, dc) in [(0, 1), (0, 2), (1, 0), (1, 1), (2, 0), (2, 2)] {
+            blockers.push(Some(SOp::Block(kind.to_string(), dr, dc)));
+        }
+    }
+    blockers.push(Some(SOp::Block("spill-from-above".into(), -1, 1)));
+    for anchor in 0..ANCHORS.len() {
+        let sized = anchor == 0 || anchor >= 4;
+        for a in SIZES {
+            for b in SIZES {
+                if !sized && (a, b) != ("2", "2") {
+                    continue;
+                }
+                for (row, col) in [(AR, AC), (LAST_ROW - 1, 2), (5, LAST_COL - 1), (LAST_ROW, LAST_COL)] {
+                    if (row, col) != (AR, AC) && anchor != 0 {
+                        continue;
+                    }
+                    for bl in &blockers {
+                        if bl.is_some() && (row, col) != (AR, AC) {
+                            continue;
+                        }
+                        v.push((
+                            Base {
+                                anchor,
+                                a: a.into(),
+                                b: b.into(),
+                                row,
+                                col,
+                            },
+                            bl.iter().cloned().collect(),
+                        ));
+                    }
+                }
+            }
+        }
+    }
+    v
+}
+
+pub fn run(run: &mut Run) {
+    let thorough = run.tier.thorough();
+    let mut outcomes = BTreeSet::new();
+    let mut counts = [0u64; 5];
+    // (1) the product
+    let prod = product();
+    let res = crate::env::par_units(prod.len().div_ceil(16), |u| {
+        let mut outs = vec![];
+        for (base, word) in prod.iter().skip(u * 16).take(16) {
+            outs.push(run_word(base, word));
+        }
+        outs
+    });
+    let mut absorb = |run: &mut Run, outs: Vec<Option<WordOut>>, len: u64| {
+        for o in outs {
+            run.evaluations += 1;
+            if let Some(w) = o {
+                run.traces += 1;
+                run.states += 1;
+                run.transitions += len;
+                for i in 0..5 {
+                    counts[i] += w.counts[i];
+                }
+                if w.counts[0] > 0 {
+                    run.nontrivial += 1;
+                }
+                outcomes.insert(w.digest);
+                run.add_all(w.ds);
+            }
+        }
+    };
+    for r in res {
+        match r {
+            Ok(outs) => absorb(run, outs, 1),
+            Err(e) => run.machinery_errors.push(e),
+        }
+    }
+    // (2) words from the base scenarios
+    let bs = bases();
+    let mut plans = vec![];
+    let max_len = if thorough { 3 } else { 2 };
+    for len in 1..=max_len {
+        let full = true;
+        let mut words = 0u64;
+        let mut alpha_size = 0;
+        for base in &bs {
+            let alpha = alphabet(base, full);
+            alpha_size = alpha.len();
+            let a = alpha.len();
+            let prefixes = a.pow((len - 1) as u32);
+            let res = crate::env::par_units(prefixes, |u| {
+                let mut k = u;
+                let mut idx = vec![0usize; len - 1];
+                for i in (0..len - 1).rev() {
+                    idx[i] = k % a;
+                    k /= a;
+                }
+                let mut word: Vec<SOp> = idx.iter().map(|i| alpha[*i].clone()).collect();
+                word.push(alpha[0].clone());
+                let mut outs = vec![];
+                for op in &alpha {
+                    *word.last_mut().unwrap() = op.clone();
+                    outs.push(run_word(base, &word));
+                }
+                outs
+            });
+            for r in res {
+                match r {
+                    Ok(outs) => {
+                        words += outs.len() as u64;
+                        absorb(run, outs, len as u64)
+                    }
+                    Err(e) => run.machinery_errors.push(e),
+                }
+            }
+        }
+        plans.push(json!({"length": len, "alphabet_size": alpha_size, "bases": bs.len(), "words": words}));
+    }
+    run.distinct_outcomes = outcomes.len() as u64;
+    run.bound = json!({
+        "product": {"scenarios": prod.len(), "anchors": ANCHORS, "sizes": SIZES, "blockers": "none | value, formula, spill, CSE at 6 cells of the block | a spill entering from above", "edge_anchors": "rows 1048575/1048576, columns 16383/16384"},
+        "words": plans,
+        "api": "UserModel",
+        "hash_seed": crate::env::hash_seed(),
+    });
+    run.extra.insert(
+        "final_states_anchors_spilled_blocked_scalar_unknownshape".into(),
+        json!(counts),
+    );
+    run.rule = "every scenario of the product and every word of the stated length whose operations are all accepted; the final state is judged by the spill invariant over every dynamic-array anchor of the sheet; non-trivial = the final state holds at least one dynamic-array anchor".into();
+    run.sample(json!({"base": prod[0].0, "word": prod[0].1}));
+    run.sample(json!({"base": bs[0], "word": [alphabet(&bs[0], true)[3], alphabet(&bs[0], true)[12]]}));
+    run.sample(json!({"base": bs[bs.len() - 1], "word": [alphabet(&bs[bs.len() - 1], true)[2]]}));
+    run.assume("which error a degenerate size (0, text, blank) gives is not stated: any error value is accepted, but it must not spill");
+    run.assume("anchors whose formula (after displacement by structural edits) is none of the five shapes, or reads error elements, are only checked structurally (spill cells covered by their anchor)");
+    run.assume("when two spills compete for a cell either may win; both showing #SPILL! without a foreign cell in the block is a violation");
+    run.assume("blank source cells may show as 0 or empty in a spilled range (not compared)");
+    run.assume("hash-map iteration order fixed by VERIF_HASH_SEED for this run (listed seed only)");
+}
+
+pub fn replay(case: &Value) -> Vec<Disagreement> {
+    let base: Base = match serde_json::from_value(case["base"].clone()) {
+        Ok(b) => b,
+        Err(_) => return vec![],
+    };
+    let word: Vec<SOp> = serde_json::from_value(case["word"].clone()).unwrap_or_default();
+    run_word(&base, &word).map(|w| w.ds).unwrap_or_default()
 }
